@@ -176,3 +176,141 @@ func RejNTTCandidates(seed []byte) []int64 {
 	}
 	return out
 }
+
+// ---------------------------------------------------------------------------
+// Tail scanning: how much XOF output a rejection sampler consumes for a given
+// input, computed without building the polynomial. The checks use it to find,
+// deterministically and cheaply, the inputs in the far tail (unusually many
+// rejections, an extra squeezed block) that random seeds reach with
+// probability 1e-4 .. 1e-6 only, and feed exactly those to circl.
+
+// Scanner reuses its hashers and buffers between calls.
+type Scanner struct {
+	h256, h128 sha3.ShakeHash
+	buf        [168]byte
+}
+
+// NewScanner returns a Scanner.
+func NewScanner() *Scanner {
+	return &Scanner{h256: sha3.NewShake256(), h128: sha3.NewShake128()}
+}
+
+// RejBoundedBytes returns the number of SHAKE-256 output bytes that
+// RejBoundedPoly(parts...) reads until it has 256 coefficients (136 per block).
+func (s *Scanner) RejBoundedBytes(eta int64, parts ...[]byte) int {
+	s.h256.Reset()
+	for _, x := range parts {
+		_, _ = s.h256.Write(x)
+	}
+	lim := byte(15) // eta = 2: nibbles 0..14 accepted
+	if eta == 4 {
+		lim = 9 // nibbles 0..8 accepted
+	}
+	acc, n := 0, 0
+	for {
+		_, _ = s.h256.Read(s.buf[:136])
+		for _, z := range s.buf[:136] {
+			n++
+			if z&15 < lim {
+				acc++
+			}
+			if z>>4 < lim {
+				acc++
+			}
+			if acc >= N {
+				return n
+			}
+		}
+	}
+}
+
+// RejNTTBytes returns the number of SHAKE-128 output bytes RejNTTPoly(parts...)
+// reads (3 per candidate; 768 if nothing is rejected).
+func (s *Scanner) RejNTTBytes(parts ...[]byte) int {
+	s.h128.Reset()
+	for _, x := range parts {
+		_, _ = s.h128.Write(x)
+	}
+	acc, n := 0, 0
+	for {
+		_, _ = s.h128.Read(s.buf[:168])
+		for i := 0; i < 168; i += 3 {
+			n += 3
+			z := int64(s.buf[i+2]&127)<<16 | int64(s.buf[i+1])<<8 | int64(s.buf[i])
+			if z < Q {
+				acc++
+				if acc == N {
+					return n
+				}
+			}
+		}
+	}
+}
+
+// InBallBytes returns the number of SHAKE-256 output bytes SampleInBall(seed)
+// reads: 8 sign bytes, tau accepted index bytes and the rejected ones.
+func (s *Scanner) InBallBytes(tau int, seed []byte) int {
+	s.h256.Reset()
+	_, _ = s.h256.Write(seed)
+	n := 8
+	_, _ = s.h256.Read(s.buf[:8])
+	for i := N - tau; i < N; i++ {
+		for {
+			_, _ = s.h256.Read(s.buf[:1])
+			n++
+			if int(s.buf[0]) <= i {
+				break
+			}
+		}
+	}
+	return n
+}
+
+// ExpandSMax returns the largest RejBoundedBytes over the k+l polynomials that
+// KeyGen_internal(xi) samples with ExpandS.
+func (s *Scanner) ExpandSMax(p *Params, xi []byte) int {
+	var exp []byte
+	if p.R31 {
+		exp = H(128, xi)
+	} else {
+		exp = H(128, xi, []byte{byte(p.K), byte(p.L)})
+	}
+	max := 0
+	for r := 0; r < p.K+p.L; r++ {
+		if b := s.RejBoundedBytes(p.Eta, exp[32:96], le16(r)); b > max {
+			max = b
+		}
+	}
+	return max
+}
+
+// TopK keeps the k highest-scoring items (ties: first seen wins), in a
+// deterministic order.
+type TopK struct {
+	K     int
+	Items []TopItem
+}
+
+// TopItem is one kept input.
+type TopItem struct {
+	Score int
+	Data  []byte
+}
+
+// Offer considers one input; data is copied if kept.
+func (t *TopK) Offer(score int, data []byte) {
+	if len(t.Items) == t.K && score <= t.Items[len(t.Items)-1].Score {
+		return
+	}
+	it := TopItem{Score: score, Data: append([]byte{}, data...)}
+	pos := len(t.Items)
+	for pos > 0 && t.Items[pos-1].Score < score {
+		pos--
+	}
+	t.Items = append(t.Items, TopItem{})
+	copy(t.Items[pos+1:], t.Items[pos:])
+	t.Items[pos] = it
+	if len(t.Items) > t.K {
+		t.Items = t.Items[:t.K]
+	}
+}
